@@ -17,8 +17,11 @@
    context and notification round; the outer rollback swaps in the snapshot of ALL options taken before the outer
    assignment, so an accepted nested assignment is undone together with a rejected outer update.
    Deliberate deviations of the code, as constants:
-     TypeErrorRollsBack = FALSE : rollback() catches only OptionsError; a TypeError of a later key leaves the
-                                  earlier keys of the same call assigned and nobody is told
+     TypeCheckFirst = TRUE      : update_known() type-checks every known key before the rollback block (repair of
+                                  finding C44-F1): an ill-typed value raises TypeError with nothing assigned and nobody told.
+                                  FALSE is the code before the repair, kept as a design variant the monitor rejects:
+                                  rollback() catches only OptionsError, so the TypeError of a later key left the
+                                  earlier keys of the same call assigned (C44.rejected_not_restored)
      Lossy = {"nel"}            : strings of these classes are not reproduced by save + load (ruamel writes U+0085
                                   inside a quoted scalar as a line break, the loader folds it to a space)    *)
 EXTENDS Mon_Options, TLC
@@ -29,7 +32,7 @@ CONSTANTS Opts,        \* <<[name, type, default]>> options that exist from the 
           Updates,     \* set of [via |-> "update"|"setattr"|"defer"|"set"|"set_defer", kvs |-> <<<<name, value>>>>]
           Modes,       \* save/load modes explored
           StrCls,      \* class of pool string k
-          Lossy, TypeErrorRollsBack, MaxOps
+          Lossy, TypeCheckFirst, MaxOps
 VARIABLES vals, deferred, file, started, ops, mon, obs
 vars == <<vals, deferred, file, started, ops, mon, obs>>
 
@@ -54,7 +57,8 @@ Setup == /\ Live /\ ~started /\ started' = TRUE /\ UNCHANGED <<vals, deferred, f
                     listeners |-> [i \in 1..Len(Listeners) |-> [id |-> Listeners[i].id, subs |-> Listeners[i].subs]],
                     vals |-> vals]>>)
 
-\* for k, v in known.items(): self._options[k].set(v)
+\* for k, v in known.items(): check_option_type(...) -- then -- for k, v in known.items(): self._options[k].set(v)
+\* (err: some value is ill-typed; v: what the old assignment loop had assigned before it met that value)
 RECURSIVE AssignAll(_, _)
 AssignAll(vs, kvs) ==
   IF kvs = <<>> THEN [v |-> vs, err |-> FALSE]
@@ -95,9 +99,8 @@ UpdateKnown(old, kvs) ==
       a == AssignAll(old, kvs)
   IN IF kvs = <<>> THEN [v |-> old, outcome |-> "ok", exc |-> "", notes |-> <<>>, nest |-> <<>>]
      ELSE IF a.err
-          THEN IF TypeErrorRollsBack
-               THEN [v |-> old, outcome |-> "raised", exc |-> "TypeError", notes |-> Round(old, keys, <<>>, <<>>).notes,
-                     nest |-> <<>>]
+          THEN IF TypeCheckFirst
+               THEN [v |-> old, outcome |-> "raised", exc |-> "TypeError", notes |-> <<>>, nest |-> <<>>]
                ELSE [v |-> a.v, outcome |-> "raised", exc |-> "TypeError", notes |-> <<>>, nest |-> <<>>]
      ELSE LET n1 == Round(a.v, keys, <<>>, <<>>)
           IN IF n1.rej
